@@ -83,17 +83,27 @@ def noDup : List Nat → Bool
   | [] => true
   | a :: rest => !rest.contains a && noDup rest
 
+/-- the records of a file: every non-blank line must be a well-formed record -/
+def records (file : Str) : Option (List Rec) := allSome ((splitLines file).map parseRecord)
+
+/-- cells of a well-formed file, in file order -/
+def readCells (file : Str) : Option (List (Nat × Nat)) :=
+  match records file with
+  | none => none
+  | some recs => interpret recs 0
+
 /-- the reader: cells of a well-formed file in which no address is written twice -/
 def read (file : Str) : Option (List (Nat × Nat)) :=
-  match allSome ((splitLines file).map parseRecord) with
+  match readCells file with
   | none => none
-  | some recs =>
-    match interpret recs 0 with
-    | none => none
-    | some cells => if noDup (cells.map (·.1)) then some cells else none
+  | some cells => if noDup (cells.map (·.1)) then some cells else none
+
+/-- byte `i` of the image at address `a + i` -/
+def cellsAt : Nat → List Nat → List (Nat × Nat)
+  | _, [] => []
+  | a, b :: bs => (a, b) :: cellsAt (a + 1) bs
 
 /-- what the property demands of the cells: byte `i` of the image at address `i`, nothing else -/
-def imageCells (img : List Nat) : List (Nat × Nat) :=
-  (List.range img.length).zip img
+def imageCells (img : List Nat) : List (Nat × Nat) := cellsAt 0 img
 
 end Avra.Spec.Hex
